@@ -41,6 +41,9 @@ pub fn torn_tails(
         if cp.kind == CallKind::Publish {
             continue;
         }
+        if stats.out_of_time() {
+            break;
+        }
         let i = cp.op;
         let pre = &main.states[i];
         if i != prev_op {
